@@ -15,25 +15,65 @@ def CoerceOK (lib : JsonLib) : Prop :=
 theorem help_version (lib : JsonLib) (env : CliEnv) (h : env.flags = .help ∨ env.flags = .version) :
     (cliMain lib env).status = 0 ∧ (cliMain lib env).stdout = none ∧ (cliMain lib env).stderrNonEmpty = true ∧
     (cliMain lib env).frames = [] := by
-  sorry
+  rcases h with h | h <;> simp [cliMain, h]
 
 /-- every other run ends in exactly one of two ways: status 0 with one JSON document on standard output, or a
     non-zero status with a diagnostic on standard error and nothing on standard output -/
 theorem process_contract (lib : JsonLib) (env : CliEnv) (h : env.flags ≠ .help ∧ env.flags ≠ .version) :
     ((cliMain lib env).status = 0 ∧ (cliMain lib env).stdout.isSome ∧ (cliMain lib env).panicked = false) ∨
     ((cliMain lib env).status ≠ 0 ∧ (cliMain lib env).stdout = none ∧ (cliMain lib env).stderrNonEmpty = true) := by
-  sorry
+  obtain ⟨h1, h2⟩ := h
+  cases hf : env.flags with
+  | help => exact absurd hf h1
+  | version => exact absurd hf h2
+  | flagError => right; simp [cliMain, hf, cliFail]
+  | ok =>
+    simp only [cliMain, hf]
+    rw [cliRun_eq]
+    cases env.request with
+    | none => right; simp [cliFail]
+    | some j =>
+      simp only []
+      cases requestsOfJ lib (4 * j.size + 4) j with
+      | err e => right; simp [cliFail]
+      | panic => right; simp [cliPanic]
+      | ok ms => exact cliFinish_contract _ _ _
 
 /-- never a Go panic trace -/
 theorem no_panic_trace (lib : JsonLib) (hc : CoerceOK lib) (env : CliEnv) : (cliMain lib env).panicked = false := by
-  sorry
+  cases hf : env.flags with
+  | help => simp [cliMain, hf]
+  | version => simp [cliMain, hf]
+  | flagError => simp [cliMain, hf, cliFail]
+  | ok =>
+    simp only [cliMain, hf]
+    rw [cliRun_eq]
+    cases env.request with
+    | none => simp [cliFail]
+    | some j =>
+      simp only []
+      cases hp : requestsOfJ lib (4 * j.size + 4) j with
+      | err e => simp [cliFail]
+      | panic => exact absurd hp (fun h => requestsOfJ_total hc j h)
+      | ok ms => exact cliFinish_panicked _ _ _ (cliExec_ne_panic env ms (requestsOfJ_go hc hp))
 
 /-- unusable flags/configuration and bad request text fail before anything is sent -/
 theorem early_failures_send_nothing (lib : JsonLib) (env : CliEnv)
     (h : env.flags = .flagError ∨ env.request = none ∨
          (∃ j, env.request = some j ∧ ∃ e, requestsOfJ lib (4 * j.size + 4) j = .err e)) (hf : env.flags ≠ .help ∧ env.flags ≠ .version) :
     (cliMain lib env).frames = [] ∧ (cliMain lib env).status ≠ 0 := by
-  sorry
+  obtain ⟨h1, h2⟩ := hf
+  cases hfl : env.flags with
+  | help => exact absurd hfl h1
+  | version => exact absurd hfl h2
+  | flagError => simp [cliMain, hfl, cliFail]
+  | ok =>
+    simp only [cliMain, hfl]
+    rw [cliRun_eq]
+    rcases h with h | h | ⟨j, hj, e, he⟩
+    · rw [hfl] at h; cases h
+    · simp [h, cliFail]
+    · simp [hj, he, cliFail]
 
 /-- with -splitrequests a successful run has sent the authentication request and then each top-level request in
     its own frame, in order -/
@@ -42,7 +82,11 @@ theorem split_sends_one_frame_each (lib : JsonLib) (env : CliEnv) (j : J) (ms : 
     (hp : requestsOfJ lib (4 * j.size + 4) j = .ok ms) (hne : ms ≠ [])
     (hok : (cliMain lib env).status = 0) :
     (cliMain lib env).frames = authRequest env.cred.user env.cred.password :: ms.map (fun m => [m]) := by
-  sorry
+  simp only [cliMain, hflags] at hok ⊢
+  rw [cliRun_parsed lib env j ms hj hp] at hok ⊢
+  obtain ⟨out, ho⟩ := cliFinish_status _ _ _ hok
+  rw [cliFinish_frames]
+  exact (cliExec_split_ok env ms out hs hne ho).1
 
 /-- against a device that answers every request with one message, the split run prints what the unsplit run
     prints (the unsplit run receives the same answers in one frame) -/
@@ -54,6 +98,24 @@ theorem split_equals_unsplit (lib : JsonLib) (envS envU : CliEnv) (j : J) (ms rs
     (hrS : envS.replies = rs.map (fun r => .frame [r])) (hrU : envU.replies = [.frame rs])
     (hokS : (cliMain lib envS).status = 0) (hokU : (cliMain lib envU).status = 0) :
     (cliMain lib envS).stdout = (cliMain lib envU).stdout := by
-  sorry
+  obtain ⟨hSf, hSs, hSj⟩ := hS
+  obtain ⟨hUf, hUs, hUj, hUfmt, _, _, _⟩ := hU
+  simp only [cliMain, hSf] at hokS ⊢
+  simp only [cliMain, hUf] at hokU ⊢
+  rw [cliRun_parsed lib envS j ms hSj hp] at hokS ⊢
+  rw [cliRun_parsed lib envU j ms hUj hp] at hokU ⊢
+  obtain ⟨outS, hoS⟩ := cliFinish_status _ _ _ hokS
+  obtain ⟨outU, hoU⟩ := cliFinish_status _ _ _ hokU
+  have eS : outS = rs := (cliExec_split_ok envS ms outS hSs hne hoS).2 rs hrS hlen
+  have eU : outU = rs := cliExec_unsplit_ok envU ms outU rs hUs hrU hoU
+  rw [hoS, hoU, eS, eU, hUfmt]
+  exact cliFinish_stdout _ _ _ _
+
+#print axioms help_version
+#print axioms process_contract
+#print axioms no_panic_trace
+#print axioms early_failures_send_nothing
+#print axioms split_sends_one_frame_each
+#print axioms split_equals_unsplit
 
 end Rscp.Props.C15
